@@ -394,7 +394,7 @@ class _CtypesShim(object):
 
 
 class CompiledModel(object):
-    def __init__(self, block, regvals=None, memvals=None, default_value=0, tracked=None):
+    def __init__(self, block, regvals=None, memvals=None, default_value=0, tracked=None, default_tracer=False):
         from pyrtl import compilesim as cs
         from . import ctrans
         self.block = block
@@ -418,9 +418,13 @@ class CompiledModel(object):
                     mmap[default_memkey(block)(m) if False else m] = dict(memvals[m.name])
             tracked = tracked if tracked is not None else sorted(block.wirevector_subset((pyrtl.Input, pyrtl.Output)), key=lambda w: w.name)
             self.tracked = tracked
-            self.sim = cs.CompiledSimulation(tracer=pyrtl.SimulationTrace(wires_to_track=tracked, block=block),
-                                             register_value_map=rmap, memory_value_map=mmap, default_value=default_value,
-                                             block=block)
+            if default_tracer:      # the simulator's own default SimulationTrace
+                self.sim = cs.CompiledSimulation(register_value_map=rmap, memory_value_map=mmap, default_value=default_value,
+                                                 block=block)
+            else:
+                self.sim = cs.CompiledSimulation(tracer=pyrtl.SimulationTrace(wires_to_track=tracked, block=block),
+                                                 register_value_map=rmap, memory_value_map=mmap, default_value=default_value,
+                                                 block=block)
         finally:
             cs.CompiledSimulation._create_code = orig
         self.text = '\n'.join(text)
